@@ -97,12 +97,25 @@ fn inprogress(bytes: &[u8], m: &ModelGame) -> Result<(), Fail> {
 		let mut state = de::parse_start(&mut r, None).map_err(|e| e.to_string())?;
 		let version = state.start().slippi.version;
 		let mut closed = 0usize;
+		// very large games: the in-progress comparisons copy the columns, so they are made at ~48
+		// points of the stream instead of after every event (the end-of-stream pass stays complete)
+		let total_items: usize = m.frames.iter().map(|f| f.items.len()).sum();
+		let heavy = m.frames.len() > 1500 || total_items > 5000;
+		let estride = ((m.frames.len() * 4 + total_items) / 48).max(1);
+		let mut events = 0usize;
 		while state.bytes_read() < size {
 			let code = de::parse_event(&mut r, &mut state, None).map_err(|e| e.to_string())?;
+			events += 1;
+			if heavy && events % estride != 0 && code != spec::EV_GAME_END {
+				continue;
+			}
 			let len = state.frames().len();
 			let now = if has_fend {
 				if code == spec::EV_FRAME_END {
 					len
+				} else if heavy {
+					// sampled mid-frame: every row before the open one is complete
+					len.saturating_sub(1).max(closed)
 				} else {
 					closed
 				}
@@ -111,7 +124,7 @@ fn inprogress(bytes: &[u8], m: &ModelGame) -> Result<(), Fail> {
 			};
 			if now > closed {
 				let cur = view_mutable(state.frames());
-				for i in closed..now {
+				for i in (if heavy { now - 1 } else { closed })..now {
 					let row = state.frame(i);
 					let row2 = state.frames().transpose_one(i, version);
 					if format!("{:?}", row) != format!("{:?}", row2) {
@@ -217,6 +230,7 @@ fn dna_model(dna: &[u8], cfg: &crate::gen::GenCfg) -> ModelGame {
 pub fn case(ctx: &Ctx, kind: &str, params: &Value, counting: bool) -> Result<(), Fail> {
 	match kind {
 		"sweep" => check(ctx, &sweep_model(params["i"].as_u64().unwrap_or(0) as usize), "sweep", counting),
+		"large" => check(ctx, &large_model(params["i"].as_u64().unwrap_or(0) as usize), "large_game", counting),
 		"fixture" => match fixture_model(&dna_param(params)) {
 			Some((_, m)) => check(ctx, &m, "fixture", counting),
 			None => Ok(()),
@@ -245,6 +259,10 @@ pub fn run(ctx: &Ctx) -> usize {
 		{
 			violations += 1;
 		}
+	}
+	// games that cross 8-bit / 16-bit counters (items per frame, items in total, frame rows)
+	if violations == 0 && run_enum(ctx, "large", LARGE_CASES, |i| json!({ "i": i }), |i| check(ctx, &large_model(i), "large_game", true)).is_some() {
+		violations += 1;
 	}
 	violations
 }
